@@ -209,7 +209,8 @@ class Exec:
         self.const_cache = {}
         self.max_paths = 4000
         self.max_steps = 400      # basic blocks per function invocation (loops): exceeding it is a refusal, never a pass
-        self.deadline = None      # time.time() after which the enumeration gives up (reported as inconclusive, never as a pass)
+        self.deadline = None      # self.clock() value after which the enumeration gives up (reported as inconclusive, never as a pass)
+        self.clock = time.time    # sweeps in worker processes use time.process_time: a budget in CPU time does not depend on the load
         self.inputs = {}          # name -> term (for model extraction)
         self.trace_calls = set()
         self.forbid_variants = {"TokenType": ["Variable", "Field"]}
@@ -300,7 +301,7 @@ class Exec:
     # ------------------------------------------------------------ feasibility
     def feasible(self, path, extra=None):
         self.n_feas += 1
-        if self.deadline is not None and time.time() > self.deadline:
+        if self.deadline is not None and self.clock() > self.deadline:
             raise Unsupported("the time budget of this enumeration is exhausted (unfinished, not a pass)")
         self.solver.push()
         try:
@@ -771,7 +772,7 @@ class Exec:
     def block(self, fn, bb, env, path, depth, steps):
         if steps > self.max_steps:
             raise Unsupported("block budget exceeded in %s (loop?)" % fn.name)
-        if self.deadline is not None and time.time() > self.deadline:
+        if self.deadline is not None and self.clock() > self.deadline:
             raise Unsupported("the time budget of this enumeration is exhausted (unfinished, not a pass)")
         stmts = fn.blocks[bb]
         env = dict(env)
